@@ -253,14 +253,16 @@ fn command_go(
                 depth,
             );
 
+            // The search is over before the move is announced: a GUI may send its
+            // next 'position' and 'go' as soon as it has read the bestmove line
+            search_is_running.store(false, Relaxed);
+            *current_game = None;
+
             if let Some(best_move) = best_move {
                 println!("bestmove {}", best_move.uci_notation());
             } else {
                 println!("bestmove none");
             }
-
-            search_is_running.store(false, Relaxed);
-            *current_game = None;
         }
     });
 
